@@ -385,6 +385,7 @@ pub fn big_docs(name: &str) -> Vec<Vec<u8>> {
         "indent" => vec!["a:\n b:\n  c d\n  e\n f\ng\n".repeat(40)],
         "pstring" => vec!["%(a(b)#{x %[y]}c) w 1 (z)\n".repeat(50)],
         "lookfar" => vec!["a-bc-a! bc a-bc bc-a-bc-a-bc !\n".repeat(40)],
+        "resv" => vec!["var a = { if: b.if, c: (d), };\nif (a.if) { a.b; }\n".repeat(30)],
         _ => vec![format!("{}\n", name).repeat(40)],
     };
     v.into_iter().map(|s| s.into_bytes()).collect()
